@@ -415,7 +415,31 @@ func (g *gen) stepRandom() {
 			}
 		}
 		g.ntag++
-		g.do(fmt.Sprintf("CONS %d %d %s t%d %s %s %s", c, h, q, g.ntag, g.b(1, 4), g.b(1, 10), g.b(1, 10)))
+		tag := fmt.Sprintf("t%d", g.ntag)
+		if g.kind != "exact" && g.r.Chance(1, 2) {
+			// consumer tags are unique per channel only: different channels may use the same tag on one queue.
+			// Prefer a queue another channel already consumes from, with that consumer's tag.
+			var cands [][2]string
+			for _, cs := range sn.Connections {
+				for _, ch := range cs.Channels {
+					if int(cs.ID) == c && int(ch.ID) == h {
+						continue
+					}
+					for _, cm := range ch.Consumers {
+						if cm.Status != 1 {
+							cands = append(cands, [2]string{cm.Queue, cm.Tag})
+						}
+					}
+				}
+			}
+			if len(cands) > 0 {
+				x := cands[g.r.Intn(len(cands))]
+				q, tag = x[0], x[1]
+			} else {
+				tag = []string{"ta", "tb"}[g.r.Intn(2)]
+			}
+		}
+		g.do(fmt.Sprintf("CONS %d %d %s %s %s %s %s", c, h, q, tag, g.b(1, 4), g.b(1, 10), g.b(1, 10)))
 	case k < 590: // cancel
 		ch := chanSnap(sn, c, h)
 		tag := "tx"
